@@ -257,11 +257,82 @@ class _TestNormal(ast.NodeTransformer):
     visit_If = visit_While = visit_IfExp = visit_Assert = _t
 
 
+def _uncondition_casts(tree):
+    """`if v.dtype != T: v = v.astype(T, copy=False)` is `v = v.astype(T, copy=False)`: with copy=False astype hands back its
+    operand when the type already matches, so the guard only skips a call that would have done nothing.  Also through a flag
+    bound once to the comparison (`needs_cast = x.dtype != T`) and for a value just sliced out of the array whose type was tested
+    (`v = x[i]` has x's dtype).  Slice objects called by name in a subscript read as slices: `x[slice(a, b)]` is `x[a:b]`."""
+    def norm(e):
+        return ast.unparse(e).replace(" ", "")
+    for fn in [n for n in ast.walk(tree) if isinstance(n, (ast.FunctionDef, ast.AsyncFunctionDef))]:
+        flags = {}
+        counts = {}
+        for n in ast.walk(fn):
+            if isinstance(n, ast.Assign) and len(n.targets) == 1 and isinstance(n.targets[0], ast.Name):
+                counts[n.targets[0].id] = counts.get(n.targets[0].id, 0) + 1
+                flags[n.targets[0].id] = n.value
+        for holder in ast.walk(fn):
+            for fld in ("body", "orelse", "finalbody"):
+                lst = getattr(holder, fld, None)
+                if not (isinstance(lst, list) and lst and isinstance(lst[0], ast.stmt)):
+                    continue
+                for i, st in enumerate(list(lst)):
+                    if not (isinstance(st, ast.If) and not st.orelse and len(st.body) == 1 and isinstance(st.body[0], ast.Assign)):
+                        continue
+                    a = st.body[0]
+                    if not (len(a.targets) == 1 and isinstance(a.targets[0], ast.Name) and isinstance(a.value, ast.Call) and isinstance(a.value.func, ast.Attribute)
+                            and a.value.func.attr == "astype" and isinstance(a.value.func.value, ast.Name) and a.value.func.value.id == a.targets[0].id
+                            and len(a.value.args) == 1 and any(k.arg == "copy" and isinstance(k.value, ast.Constant) and k.value.value is False for k in a.value.keywords)):
+                        continue
+                    v, T = a.targets[0].id, norm(a.value.args[0])
+                    test = st.test
+                    if isinstance(test, ast.Name) and counts.get(test.id) == 1:
+                        test = flags[test.id]
+                    if not (isinstance(test, ast.Compare) and len(test.ops) == 1 and isinstance(test.ops[0], ast.NotEq) and isinstance(test.left, ast.Attribute)
+                            and test.left.attr == "dtype" and isinstance(test.left.value, ast.Name) and norm(test.comparators[0]) == T):
+                        continue
+                    w = test.left.value.id
+                    same = w == v
+                    if not same:
+                        prev = [p_ for p_ in lst[:i] if isinstance(p_, ast.Assign) and len(p_.targets) == 1 and isinstance(p_.targets[0], ast.Name) and p_.targets[0].id == v]
+                        same = bool(prev) and isinstance(prev[-1].value, ast.Subscript) and isinstance(prev[-1].value.value, ast.Name) and prev[-1].value.value.id == w
+                    if same:
+                        j = lst.index(st)
+                        lst[j] = ast.copy_location(a, st)
+                        # `v = e` immediately followed by the (now unconditional) `v = v.astype(T, copy=False)` is `v = (e).astype(T, copy=False)`
+                        if j > 0 and isinstance(lst[j - 1], ast.Assign) and len(lst[j - 1].targets) == 1 and isinstance(lst[j - 1].targets[0], ast.Name) \
+                                and lst[j - 1].targets[0].id == v and not any(isinstance(x, ast.Name) and x.id == v for x in ast.walk(lst[j - 1].value)):
+                            a.value.func.value = lst[j - 1].value
+                            del lst[j - 1]
+    return slice_calls_as_slices(tree)
+
+
+def slice_calls_as_slices(tree):
+    """`x[slice(a, b)]` is `x[a:b]` (also inside an index tuple)"""
+    for n in ast.walk(tree):
+        if isinstance(n, ast.Subscript) and isinstance(n.slice, ast.Tuple):
+            for k_, el in enumerate(n.slice.elts):
+                if isinstance(el, ast.Call) and isinstance(el.func, ast.Name) and el.func.id == "slice" and not el.keywords and 1 <= len(el.args) <= 3:
+                    a_ = [None if (isinstance(x, ast.Constant) and x.value is None) else x for x in el.args]
+                    n.slice.elts[k_] = ast.Slice(lower=None, upper=a_[0], step=None) if len(a_) == 1 else ast.Slice(lower=a_[0], upper=a_[1], step=a_[2] if len(a_) == 3 else None)
+        if isinstance(n, ast.Subscript) and isinstance(n.slice, ast.Call) and isinstance(n.slice.func, ast.Name) and n.slice.func.id == "slice" \
+                and not n.slice.keywords and 1 <= len(n.slice.args) <= 3:
+            args = list(n.slice.args)
+            def nn(x):
+                return None if isinstance(x, ast.Constant) and x.value is None else x
+            if len(args) == 1:
+                n.slice = ast.Slice(lower=None, upper=nn(args[0]), step=None)
+            else:
+                n.slice = ast.Slice(lower=nn(args[0]), upper=nn(args[1]), step=nn(args[2]) if len(args) == 3 else None)
+    return tree
+
+
 def normalise_shape(tree):
     if os.environ.get("PDSA_NO_ALPHA"):
         return tree
     tree = _TestNormal().visit(tree)
     tree = _IfNormal().visit(tree)
+    tree = _uncondition_casts(tree)
     # IOError and EnvironmentError are OSError (one class since Python 3.3): one spelling
     bound = {x.id for x in ast.walk(tree) if isinstance(x, ast.Name) and isinstance(x.ctx, ast.Store)} | {a.arg for a in ast.walk(tree) if isinstance(a, ast.arg)}
     if not bound & {"IOError", "OSError", "EnvironmentError"}:
@@ -541,7 +612,7 @@ def _pure_expr(e):
         return all(x is None or _pure_expr(x) for x in (e.lower, e.upper, e.step))
     if isinstance(e, ast.Tuple):
         return all(_pure_expr(x) for x in e.elts)
-    if isinstance(e, ast.Call) and isinstance(e.func, ast.Name) and e.func.id in ("len", "int", "float", "min", "max", "abs") and not e.keywords:
+    if isinstance(e, ast.Call) and isinstance(e.func, ast.Name) and e.func.id in ("len", "int", "float", "min", "max", "abs", "slice") and not e.keywords:
         return all(_pure_expr(a) for a in e.args)
     if isinstance(e, ast.Compare):
         return _pure_expr(e.left) and all(_pure_expr(c) for c in e.comparators)
